@@ -12,6 +12,7 @@ import (
 	"golang.org/x/text/language"
 
 	"gorm.io/gorm/clause"
+	"gorm.io/gorm/utils/simhook"
 )
 
 // RelationshipType relationship type
@@ -77,10 +78,12 @@ func (schema *Schema) parseRelation(field *Field) *Relationship {
 
 	cacheStore := schema.cacheStore
 
+	simhook.Yield("relation:before-parse")
 	if relation.FieldSchema, err = getOrParse(fieldValue, cacheStore, schema.namer); err != nil {
 		schema.err = err
 		return nil
 	}
+	simhook.Yield("relation:after-parse")
 
 	if hasPolymorphicRelation(field.TagSettings) {
 		schema.buildPolymorphicRelation(relation, field)
